@@ -10,6 +10,17 @@ fn check_pkt(d: &mut D, p: &[u8], k: usize) {
     if p.is_empty() {
         return;
     }
+    if k % 32 == 5 && p.len() > 8 {
+        // a receiving context whose own EID / address is related to the packet: EID equal to the
+        // packet's source or destination EID, address equal to the source
+        d.new_ctx(31, p[6], &[0x7E], &[(0, [0, 0, 0x12, 0x34], [0, 0xAB])]);
+        for e in [p[6], p[5]] {
+            d.ex(json!({"op":"set_eid","ctx":31,"half":"req","eid":e}));
+            d.ex(json!({"op":"set_eid","ctx":31,"half":"resp","eid":e}));
+            d.decode(31, p);
+        }
+        d.process(31, p);
+    }
     if k % 8 == 0 {
         for c in 0..3 {
             d.decode(c, p);
@@ -110,6 +121,38 @@ pub fn requests(d: &mut D) {
                 check_pkt(d, &pkt_of(&e), k);
             }
         }
+        // relational values: a parameter equal to something else the encoder can see - the context's own
+        // address, the EID stored in either half, the destination, another parameter
+        d.new_ctx(30, 0x3C, &[], &[(0, [0, 0, 0, 1], [0, 0])]);
+        for (er, es) in [(0x4Au64, 0x4A), (0x4A, 0x2D), (0, 0x4A), (0x3C, 0x3C)] {
+            d.ex(json!({"op":"set_eid","ctx":30,"half":"req","eid":er}));
+            d.ex(json!({"op":"set_eid","ctx":30,"half":"resp","eid":es}));
+            for dst in [0x3Cu64, 0x4A, 0x2D, 0x11] {
+                let specials = [er, es, 0x3C, dst, dst + 1, er + 1, 0x0F, 0xC8];
+                let ps = byte_params(name);
+                if ps.is_empty() {
+                    let a = d.rand_req_args(name, dst as u8);
+                    let p = d.enc_req(30, name, a);
+                    k += 1;
+                    check_pkt(d, &p, k);
+                }
+                for par in ps {
+                    for v in specials {
+                        let mut a = d.rand_req_args(name, dst as u8);
+                        a[*par] = json!(v & 0xFF);
+                        // and every other byte parameter equal to it as well, half of the time
+                        if d.g.chance(1, 2) {
+                            for q in ps {
+                                a[*q] = json!(v & 0xFF);
+                            }
+                        }
+                        let p = d.enc_req(30, name, a);
+                        k += 1;
+                        check_pkt(d, &p, k);
+                    }
+                }
+            }
+        }
         // every enum variant
         let variants: Vec<Value> = match *name {
             "set_endpoint_id" => (0..4).map(|o| json!({"operation":o})).collect(),
@@ -147,9 +190,42 @@ pub fn requests(d: &mut D) {
         }
         if *name == "routing_information_update" {
             for n in 0..=9usize {
-                for _ in 0..(if d.thorough { 40 } else { 6 }) {
-                    let es: Vec<Value> = (0..n).map(|_| jb(&d.g.bytes(4))).collect();
+                for rep in 0..(if d.thorough { 60 } else { 10 }) {
+                    // structured lists: independent entries, and lists whose entries are copies or
+                    // single-byte variations of their neighbour (related elements, not only random ones)
+                    let mut raw: Vec<Vec<u8>> = Vec::new();
+                    let pool: [u8; 10] = [0x51, 0x34, 0, 1, 2, 3, 0xFF, 0x0F, 0x80, 0x7F]; // dst, own address, enum values, ...
+                    for i in 0..n {
+                        let e = if rep % 3 == 2 {
+                            // fields related to the call itself: destination, own address, small enum values
+                            (0..4).map(|_| if d.g.chance(3, 4) { *d.g.pick(&pool) } else { d.g.byte() }).collect()
+                        } else if rep % 2 == 0 || i == 0 {
+                            d.g.bytes(4)
+                        } else {
+                            let mut prev = raw[i - 1].clone();
+                            match d.g.below(4) {
+                                0 => {}
+                                _ => {
+                                    let k = d.g.below(4) as usize;
+                                    prev[k] = if d.g.chance(1, 2) { prev[k].wrapping_add(1) } else { d.g.byte() };
+                                }
+                            }
+                            prev
+                        };
+                        raw.push(e);
+                    }
+                    let es: Vec<Value> = raw.iter().map(|e| jb(e)).collect();
                     let p = enc_variants(d, &req_cmd(12, name, json!({"dst":0x51,"entries":es})));
+                    if rep % 3 == 2 && n >= 1 {
+                        // ... and the all-related extreme: every field of an entry equal to the destination
+                        for t in 0..4u8 {
+                            let mut es2: Vec<Value> = raw.iter().map(|e| jb(e)).collect();
+                            es2[(rep / 3) % n] = jb(&[t, 0x51, 0x51, 0x51]);
+                            let p2 = d.enc_req(12, name, json!({"dst":0x51,"entries":es2}));
+                            k += 1;
+                            check_pkt(d, &p2, k);
+                        }
+                    }
                     k += 1;
                     check_pkt(d, &p, k * 8);
                 }
@@ -364,6 +440,30 @@ pub fn vendor(d: &mut D) {
         k += 1;
         check_pkt(d, &p, k);
     }
+    // payloads related to the packet they travel in: beginning with the vendor id, the message type byte,
+    // the addresses, a copy of the packet's own header
+    for fmt in 0..2u64 {
+        for rep in 0..(if d.thorough { 200 } else { 24 }) {
+            let id = if fmt == 0 { let b = d.g.bytes(2); vec![0, 0, b[0], b[1]] } else { d.g.bytes(4) };
+            let dst = d.g.byte() & 0x7F;
+            let tail_n = d.g.below(9) as usize;
+            let tail = d.g.bytes(tail_n);
+            let mut msg: Vec<u8> = match rep % 6 {
+                0 => id.clone(),
+                1 => id[2..].to_vec(),
+                2 => vec![if fmt == 0 { 0x7E } else { 0x7F }, id[2], id[3]],
+                3 => vec![dst << 1, 0x0F, 9, (0x19 << 1) | 1, 1, dst, 0x19, 0xC8],
+                4 => id.iter().rev().cloned().collect(),
+                _ => vec![dst, 0x19, dst, 0x19],
+            };
+            if rep % 12 >= 6 || rep % 6 == 3 {
+                msg.extend_from_slice(&tail);
+            }
+            let p = d.enc_vendor(10, vendor_args(dst, fmt, &id, 0, &msg), 64);
+            k += 1;
+            check_pkt(d, &p, k * 8);
+        }
+    }
     // every format byte
     for f in 0..=255u64 {
         let id = d.g.bytes(4);
@@ -434,6 +534,24 @@ pub fn lengths(d: &mut D) {
                 check_pkt(d, &p, k);
                 if total >= 250 && !p.is_empty() {
                     d.process(0, &p);
+                }
+            }
+        }
+    }
+    // optional header length x data length around the frame limit, every kind, both halves
+    for kind in ["pci", "iana", "spdm", "secured", "control"] {
+        for hl in 0..=9usize {
+            for dl in 236..=252usize {
+                if !d.thorough && (hl + dl) % 2 == 1 && hl + dl < 244 {
+                    continue;
+                }
+                let hdr = d.g.bytes(hl);
+                let data = d.g.bytes(dl);
+                let half = if (hl + dl) % 2 == 0 { "req" } else { "resp" };
+                let p = d.enc_gen(10, half, kind, json!({"dst":0x2B,"has_hdr":1,"hdr":jb(&hdr),"data":jb(&data)}), 300);
+                k += 1;
+                if kind != "control" && k % 8 == 0 {
+                    check_pkt(d, &p, k);
                 }
             }
         }
